@@ -21,9 +21,11 @@ pub fn kinds() -> Vec<(KT, Scheme)> {
     let mut v = vec![(KT::K256, Scheme::Secp)];
     #[cfg(feature = "libsecp")]
     v.push((KT::Libsecp, Scheme::Secp));
-    v.push((KT::Ed, Scheme::Ed));
-    v.push((KT::Comb, Scheme::Secp));
-    v.push((KT::Comb, Scheme::Ed));
+    if cfg!(feature = "ed") {
+        v.push((KT::Ed, Scheme::Ed));
+        v.push((KT::Comb, Scheme::Secp));
+        v.push((KT::Comb, Scheme::Ed));
+    }
     v.push((KT::Toy, Scheme::Toy));
     v
 }
@@ -122,6 +124,11 @@ pub fn alphabet(scheme: Scheme, init_seq: u64, own_pub: &[u8], other_pub: &[u8])
     a.push(Op::Insert(k("secp256k1"), Val::B(other_secp.clone())));
     a.push(Op::Insert(k("secp256k1"), Val::L(vec![other_secp.clone()])));
     a.push(Op::Insert(k("secp256k1"), Val::B(vec![])));
+    // a compressed-form tag on a value of the wrong length
+    a.push(Op::Insert(k("secp256k1"), Val::B(vec![2, 1, 2, 3])));
+    a.push(Op::Insert(k("secp256k1"), Val::B(vec![3; 32])));
+    a.push(Op::Insert(k("secp256k1"), Val::B(vec![2; 34])));
+    a.push(Op::InsertRaw(k("secp256k1"), vec![0x02]));
     if !cfg!(miri) {
         // the 65-byte SEC1 forms of the same key: uncompressed (04) and hybrid (06/07), and a 65-byte non-point
         if let Some((_, u)) = crate::refimpl::sig::secp_normalise(&other_secp) {
